@@ -17,7 +17,7 @@
    intent (IntentGuard::drop, point guard_drop.lock_I); a failed blob deletion or rollover
    checkpoint after the operation was applied returns the error WITHOUT reverting the intent a
    second time (apply_put_op has already released it). *)
-From Cas Require Export Index.
+From Cas Require Export Index Range.
 
 Inductive ccall :=
 | KPut (k c : bytes)
@@ -26,6 +26,8 @@ Inductive ccall :=
 | KRemoveRange (lo hi : bound)
 | KGet (k : bytes)
 | KGetSize (k : bytes)
+| KGetRange (k : bytes) (a b : N)            (* get_range(k, a, b) *)
+| KIter                                      (* read_index_state(): the keys, in order, under one read guard *)
 | KCheckpoint
 | KDelOrphans (hs : list bytes).
 
@@ -33,7 +35,29 @@ Inductive cres :=
 | CUnit | CBool (b : bool) | CNum (n : N) | CBytes (o : option bytes) | CSize (o : option N)
 | CMissing                                   (* BlobDataMissing *)
 | COrphans (deleted skipped : N)
+| CKeys (ks : list bytes)
+| CInvalid                                   (* InvalidRange: start above the (clamped) end *)
 | CErr.                                      (* the call returned an I/O error *)
+
+(* what a read wants from the item it looked up *)
+Inductive rmode := MFull | MSize | MRange (a b : N).
+(* answered from the index item alone, without opening the blob (get_size; the empty-range and
+   invalid-range exits of get_range / read_blob_range, which precede the open) *)
+Definition pre_open (md : rmode) (it : item) : option cres :=
+  match md with
+  | MFull => None
+  | MSize => Some (CSize (Some (isize it)))
+  | MRange a b =>
+    if isize it <=? a then Some (CBytes (Some []))
+    else if N.min b (isize it) <? a then Some CInvalid
+    else None
+  end.
+Definition read_result (md : rmode) (it : item) (c : bytes) : cres :=
+  match md with
+  | MRange a b => CBytes (Some (slice c a (N.min b (isize it))))
+  | _ => CBytes (Some c)
+  end.
+Definition absent_result (md : rmode) : cres := match md with MSize => CSize None | _ => CBytes None end.
 
 (* the second half of every write: lock I, lock S, lock W + append + apply, filter, unlinks,
    release I, optional rollover checkpoint *)
@@ -59,11 +83,12 @@ Inductive pc :=
 | RScanned (k : bytes)                        (* remove.scanned *)
 | RRRead (lo hi : bound)                      (* remove_range: read.lock_S *)
 | RRScanned (ks : list bytes)                 (* remove_range.scanned *)
-| GRead (k : bytes) (size_only : bool)        (* read.lock_S *)
-| GLooked (k : bytes) (it : item) (size_only : bool)   (* read.looked_up *)
-| GOpen (k : bytes) (it : item)               (* cas.open_blob *)
-| GReread (k : bytes) (it : item)             (* read.lock_S after a NotFound *)
-| GOpenL (k : bytes) (it : item)              (* cas.open_blob, holding the state lock shared *)
+| GRead (k : bytes) (md : rmode)              (* read.lock_S *)
+| GLooked (k : bytes) (it : item) (md : rmode)          (* read.looked_up *)
+| GOpen (k : bytes) (it : item) (md : rmode)  (* cas.open_blob *)
+| GReread (k : bytes) (it : item) (md : rmode)          (* read.lock_S after a NotFound *)
+| GOpenL (k : bytes) (it : item) (md : rmode) (* cas.open_blob, holding the state lock shared *)
+| IRead                                       (* iteration: read.lock_S *)
 | OLockI (todo : list bytes) (del skip : N)   (* orphan.lock_I *)
 | ORead (h : bytes) (todo : list bytes) (del skip : N)       (* read.lock_S, holding I *)
 | OUnlink (h : bytes) (todo : list bytes) (del skip : N).    (* orphan.unlink, holding I *)
@@ -150,8 +175,10 @@ Section Conc.
           | KAbort _ _ => Some (finish g t ts' CUnit)
           | KRemove k => Some (set_pc g t ts' (RRead k))
           | KRemoveRange lo hi => Some (set_pc g t ts' (RRRead lo hi))
-          | KGet k => Some (set_pc g t ts' (GRead k false))
-          | KGetSize k => Some (set_pc g t ts' (GRead k true))
+          | KGet k => Some (set_pc g t ts' (GRead k MFull))
+          | KGetSize k => Some (set_pc g t ts' (GRead k MSize))
+          | KGetRange k a b => Some (set_pc g t ts' (GRead k (MRange a b)))
+          | KIter => Some (set_pc g t ts' IRead)
           | KCheckpoint => Some (set_pc g t ts' (WCkS CUnit 0))
           | KDelOrphans hs =>
             match hs with
@@ -287,40 +314,48 @@ Section Conc.
         | [] => Some (finish g t ts (CNum 0))
         | _ => Some (set_pc g t ts (WLockI (WRm ks (CNum (N.of_nat (length ks))))))
         end
-      | GRead k so =>
+      | GRead k md =>
         if free (g_S g) then
           match sm_get cmp (km (g_idx g)) k with
-          | None => Some (finish g t ts (if so then CSize None else CBytes None))
-          | Some it => Some (set_pc g t ts (GLooked k it so))
+          | None => Some (finish g t ts (absent_result md))
+          | Some it => Some (set_pc g t ts (GLooked k it md))
           end
         else None
-      | GLooked k it so =>
-        if so then Some (finish g t ts (CSize (Some (isize it))))
-        else Some (set_pc g t ts (GOpen k it))
-      | GOpen k it =>
+      | GLooked k it md =>
+        match pre_open md it with
+        | Some r => Some (finish g t ts r)
+        | None => Some (set_pc g t ts (GOpen k it md))
+        end
+      | GOpen k it md =>
         if bad (ihash it) then Some (finish g t ts CErr) else      (* an error other than NotFound: no retry *)
         match sm_get lex_cmp (g_cas g) (ihash it) with
-        | Some c => Some (finish g t ts (CBytes (Some c)))
-        | None => Some (set_pc g t ts (GReread k it))
+        | Some c => Some (finish g t ts (read_result md it c))
+        | None => Some (set_pc g t ts (GReread k it md))
         end
-      | GReread k it =>
-        (* the retry: look the key up again and open its blob while holding the read lock *)
+      | GReread k it md =>
+        (* the retry: look the key up again and answer from its CURRENT item while holding the read lock *)
         if free (g_S g) then
           match sm_get cmp (km (g_idx g)) k with
-          | None => Some (finish g t ts (CBytes None))
+          | None => Some (finish g t ts (absent_result md))
           | Some cur =>
-            Some (mkC (g_idx g) (g_bykey g) (g_byhash g) (g_cas g) (g_nextv g) (g_I g) (g_S g) (t :: g_R g)
-                      (tset (g_thr g) t (mkT (t_calls ts) (GOpenL k cur) (t_res ts))))
+            match pre_open md cur with
+            | Some r => Some (finish g t ts r)
+            | None =>
+              Some (mkC (g_idx g) (g_bykey g) (g_byhash g) (g_cas g) (g_nextv g) (g_I g) (g_S g) (t :: g_R g)
+                        (tset (g_thr g) t (mkT (t_calls ts) (GOpenL k cur md) (t_res ts))))
+            end
           end
         else None
-      | GOpenL k it =>
+      | GOpenL k it md =>
         let g' := mkC (g_idx g) (g_bykey g) (g_byhash g) (g_cas g) (g_nextv g) (g_I g) (g_S g)
                       (filter (fun u => negb (Nat.eqb u t)) (g_R g)) (g_thr g) in
         if bad (ihash it) then Some (finish g' t ts CErr) else
         match sm_get lex_cmp (g_cas g) (ihash it) with
-        | Some c => Some (finish g' t ts (CBytes (Some c)))
+        | Some c => Some (finish g' t ts (read_result md it c))
         | None => Some (finish g' t ts CMissing)
         end
+      | IRead =>
+        if free (g_S g) then Some (finish g t ts (CKeys (map fst (km (g_idx g))))) else None
       | OLockI todo d s =>
         match todo with
         | [] => Some (finish g t ts (COrphans d s))
